@@ -17,8 +17,19 @@
    * split_wf: the part files of every successful write_split of writable entries are accepted as a
      part chain, decode to the same entries up to where the data streams are cut, and are read back
      by read_parts.
-   Partial / outside: see the end of the file. *)
-From PNA Require Import Base Codec Chunk Archive Entry Wf WfFacts ArchiveFacts EntryFacts WfWriterFacts WfAgreeFacts WfSplitFacts.
+   * pipeline writer_wf: the entries the library's builders produce (EntryBuilder, SolidEntryBuilder) are
+     writable, and the chunk sequences of the streaming writers (Archive::write_file, SolidArchive) are
+     accepted, for every compression x cipher x mode configuration, every slicing of the input into
+     writes, an arbitrary compressor and every block cipher that keeps 16-byte blocks; hence every
+     archive made of any mix of these is well-formed and read back.
+   Partial / outside:
+   * transform_wf (the editing commands keep an archive well-formed) has no theorem: the model of
+     the editing commands (Transform.v) works on the logical archive with opaque header/content tokens,
+     not on entries or bytes; the check runs the recogniser on the output of every editing command;
+   * the hypotheses `writable` / `writable_spec` / `strict_ctx` / `small_pieces` are premises: that the
+     CLI only produces such inputs (sanitised non-empty names, PHC strings from the password-hash crate,
+     writes below 2^32 bytes) is covered by running the recogniser on everything the CLI writes. *)
+From PNA Require Import Base Codec Chunk Archive Entry Cbc Pipeline Wf WfFacts ArchiveFacts EntryFacts CbcFacts WfWriterFacts WfAgreeFacts WfSplitFacts WfPipelineFacts.
 From PNA Require Split.
 
 (* ---- writer_wf: the chunk-level writer ------------------------------------------------------------ *)
@@ -216,3 +227,121 @@ Check C14_split_wf_satisfiable :
   Split.write_split 120 (map (fun e => map of_c (ser_entry e)) [RNormal ex_plain; RNormal ex_enc; RSolid ex_solid]) = Ok parts /\
   length parts = 12%nat /\ wf_parts (map ser_pfile parts) = true.
 Print Assumptions C14_split_wf_satisfiable.
+
+(* ---- pipeline writer_wf: the library's builders and streaming writers -------------------------------- *)
+Theorem C14_pipeline_writer_wf :
+  forall (E : encryption -> bytes -> bytes -> bytes) (compress : compression -> N -> list bytes -> list bytes),
+  (forall (a : encryption) (k b : bytes), len16 b -> len16 (E a k b)) ->
+  forall jobs : list wjob, Forall (job_ok E compress) jobs ->
+  wf_archive (write_raw_archive 0 (map (job_chunks E compress) jobs)) = true /\
+  strict_decode (write_raw_archive 0 (map (job_chunks E compress) jobs)) = Ok (map (job_entry E compress) jobs) /\
+  entries read_chunk_stream (write_raw_archive 0 (map (job_chunks E compress) jobs)) = Ok (map (job_entry E compress) jobs, FinOk).
+Proof. exact pipeline_writer_wf. Qed.
+Check C14_pipeline_writer_wf :
+  forall (E : encryption -> bytes -> bytes -> bytes) (compress : compression -> N -> list bytes -> list bytes),
+  (forall (a : encryption) (k b : bytes), len16 b -> len16 (E a k b)) ->
+  forall jobs : list wjob, Forall (job_ok E compress) jobs ->
+  wf_archive (write_raw_archive 0 (map (job_chunks E compress) jobs)) = true /\
+  strict_decode (write_raw_archive 0 (map (job_chunks E compress) jobs)) = Ok (map (job_entry E compress) jobs) /\
+  entries read_chunk_stream (write_raw_archive 0 (map (job_chunks E compress) jobs)) = Ok (map (job_entry E compress) jobs, FinOk).
+Print Assumptions C14_pipeline_writer_wf.
+
+Theorem C14_build_normal_writable :
+  forall (E : encryption -> bytes -> bytes -> bytes) (compress : compression -> N -> list bytes -> list bytes),
+  (forall (a : encryption) (k b : bytes), len16 b -> len16 (E a k b)) ->
+  forall (cfg : config) (ctx : cctx) (sp : spec) (wcuts : list bytes),
+  writable_spec sp -> strict_ctx ctx -> len (concat wcuts) < 2 ^ 128 ->
+  small_pieces E compress (eff_cfg cfg (sp_kind sp)) ctx (eff_wcuts (sp_kind sp) wcuts) ->
+  writable_normal (build_normal E compress cfg ctx sp wcuts).
+Proof. exact build_normal_writable. Qed.
+Check C14_build_normal_writable :
+  forall (E : encryption -> bytes -> bytes -> bytes) (compress : compression -> N -> list bytes -> list bytes),
+  (forall (a : encryption) (k b : bytes), len16 b -> len16 (E a k b)) ->
+  forall (cfg : config) (ctx : cctx) (sp : spec) (wcuts : list bytes),
+  writable_spec sp -> strict_ctx ctx -> len (concat wcuts) < 2 ^ 128 ->
+  small_pieces E compress (eff_cfg cfg (sp_kind sp)) ctx (eff_wcuts (sp_kind sp) wcuts) ->
+  writable_normal (build_normal E compress cfg ctx sp wcuts).
+Print Assumptions C14_build_normal_writable.
+
+Theorem C14_build_writer_wf :
+  forall (E : encryption -> bytes -> bytes -> bytes) (compress : compression -> N -> list bytes -> list bytes),
+  (forall (a : encryption) (k b : bytes), len16 b -> len16 (E a k b)) ->
+  forall js : list (config * cctx * spec * list bytes),
+  Forall (fun '(cfg, ctx, sp, wcuts) => job_ok E compress (JBuild cfg ctx sp wcuts)) js ->
+  wf_archive (write_archive (map (fun '(cfg, ctx, sp, wcuts) => build_normal E compress cfg ctx sp wcuts) js)) = true.
+Proof. exact build_writer_wf. Qed.
+Check C14_build_writer_wf :
+  forall (E : encryption -> bytes -> bytes -> bytes) (compress : compression -> N -> list bytes -> list bytes),
+  (forall (a : encryption) (k b : bytes), len16 b -> len16 (E a k b)) ->
+  forall js : list (config * cctx * spec * list bytes),
+  Forall (fun '(cfg, ctx, sp, wcuts) => job_ok E compress (JBuild cfg ctx sp wcuts)) js ->
+  wf_archive (write_archive (map (fun '(cfg, ctx, sp, wcuts) => build_normal E compress cfg ctx sp wcuts) js)) = true.
+Print Assumptions C14_build_writer_wf.
+
+Theorem C14_stream_file_accepted :
+  forall (E : encryption -> bytes -> bytes -> bytes) (compress : compression -> N -> list bytes -> list bytes),
+  (forall (a : encryption) (k b : bytes), len16 b -> len16 (E a k b)) ->
+  forall (cfg : config) (ctx : cctx) (sp : spec) (wcuts : list bytes),
+  writable_spec sp -> strict_ctx ctx -> small_pieces E compress cfg ctx wcuts ->
+  accepted_as (stream_file_chunks E compress cfg ctx sp wcuts) (RNormal (streamed_normal E compress cfg ctx sp wcuts)).
+Proof. exact stream_file_accepted. Qed.
+Check C14_stream_file_accepted :
+  forall (E : encryption -> bytes -> bytes -> bytes) (compress : compression -> N -> list bytes -> list bytes),
+  (forall (a : encryption) (k b : bytes), len16 b -> len16 (E a k b)) ->
+  forall (cfg : config) (ctx : cctx) (sp : spec) (wcuts : list bytes),
+  writable_spec sp -> strict_ctx ctx -> small_pieces E compress cfg ctx wcuts ->
+  accepted_as (stream_file_chunks E compress cfg ctx sp wcuts) (RNormal (streamed_normal E compress cfg ctx sp wcuts)).
+Print Assumptions C14_stream_file_accepted.
+
+Theorem C14_build_solid_writable :
+  forall (E : encryption -> bytes -> bytes -> bytes) (compress : compression -> N -> list bytes -> list bytes),
+  (forall (a : encryption) (k b : bytes), len16 b -> len16 (E a k b)) ->
+  forall (cfg : config) (ctx : cctx) (extra : list chunk) (swcuts : list bytes),
+  strict_ctx ctx -> Forall sextra_ok extra -> small_pieces E compress cfg ctx swcuts -> plain_inner cfg swcuts ->
+  writable_solid (build_solid E compress cfg ctx extra swcuts).
+Proof. exact build_solid_writable. Qed.
+Check C14_build_solid_writable :
+  forall (E : encryption -> bytes -> bytes -> bytes) (compress : compression -> N -> list bytes -> list bytes),
+  (forall (a : encryption) (k b : bytes), len16 b -> len16 (E a k b)) ->
+  forall (cfg : config) (ctx : cctx) (extra : list chunk) (swcuts : list bytes),
+  strict_ctx ctx -> Forall sextra_ok extra -> small_pieces E compress cfg ctx swcuts -> plain_inner cfg swcuts ->
+  writable_solid (build_solid E compress cfg ctx extra swcuts).
+Print Assumptions C14_build_solid_writable.
+
+Theorem C14_solid_archive_accepted :
+  forall (E : encryption -> bytes -> bytes -> bytes) (compress : compression -> N -> list bytes -> list bytes),
+  (forall (a : encryption) (k b : bytes), len16 b -> len16 (E a k b)) ->
+  forall (cfg : config) (ctx : cctx) (swcuts : list bytes),
+  strict_ctx ctx -> small_pieces E compress cfg ctx swcuts -> plain_inner cfg swcuts ->
+  accepted_as (solid_archive_chunks E compress cfg ctx swcuts) (RSolid (streamed_solid E compress cfg ctx swcuts)).
+Proof. exact solid_archive_accepted. Qed.
+Check C14_solid_archive_accepted :
+  forall (E : encryption -> bytes -> bytes -> bytes) (compress : compression -> N -> list bytes -> list bytes),
+  (forall (a : encryption) (k b : bytes), len16 b -> len16 (E a k b)) ->
+  forall (cfg : config) (ctx : cctx) (swcuts : list bytes),
+  strict_ctx ctx -> small_pieces E compress cfg ctx swcuts -> plain_inner cfg swcuts ->
+  accepted_as (solid_archive_chunks E compress cfg ctx swcuts) (RSolid (streamed_solid E compress cfg ctx swcuts)).
+Print Assumptions C14_solid_archive_accepted.
+
+Theorem C14_accepted_archive :
+  forall (ess : list (list chunk)) (xs : list read_entry), Forall2 accepted_as ess xs ->
+  strict_parts [write_raw_archive 0 ess] = SOk xs.
+Proof. exact accepted_archive. Qed.
+Check C14_accepted_archive :
+  forall (ess : list (list chunk)) (xs : list read_entry), Forall2 accepted_as ess xs ->
+  strict_parts [write_raw_archive 0 ess] = SOk xs.
+Print Assumptions C14_accepted_archive.
+
+Theorem C14_pipeline_satisfiable :
+  Forall (job_ok toy_E_of id_compress) ex_jobs.
+Proof. exact ex_jobs_ok. Qed.
+Check C14_pipeline_satisfiable :
+  Forall (job_ok toy_E_of id_compress) ex_jobs.
+Print Assumptions C14_pipeline_satisfiable.
+
+Theorem C14_pipeline_cipher_satisfiable :
+  forall (a : encryption) (k b : bytes), len16 b -> len16 (toy_E_of a k b).
+Proof. exact toy_E_of_len. Qed.
+Check C14_pipeline_cipher_satisfiable :
+  forall (a : encryption) (k b : bytes), len16 b -> len16 (toy_E_of a k b).
+Print Assumptions C14_pipeline_cipher_satisfiable.
